@@ -113,7 +113,7 @@ func prop(c c10kCase) common.Result {
 	g := hotstuff.GetGenesis()
 	var blocks []*hotstuff.Block
 	for i := 0; i < 3; i++ {
-		b := hotstuff.NewBlock(g.Hash(), kit.GenesisQC(), &clientpb.Batch{Commands: []*clientpb.Command{{ClientID: 7, SequenceNumber: uint64(i + 1), Data: []byte{byte(i)}}}}, hotstuff.View(i+1), positions[0])
+		b := kit.NewBlock(g.Hash(), kit.GenesisQC(), &clientpb.Batch{Commands: []*clientpb.Command{{ClientID: 7, SequenceNumber: uint64(i + 1), Data: []byte{byte(i)}}}}, hotstuff.View(i+1), positions[0])
 		blocks = append(blocks, b)
 		bc.Store(b)
 		kit.StoreAll(ms, b)
